@@ -29,6 +29,7 @@ def _common_coverage(c, extra=None):
         "campaign_wall_s": round(c.get("wall", 0), 1),
         "np_model": {k: c.get("exhaustive_np", {}).get(k) for k in ("ok", "programs", "distinct", "generated", "timeout")},
         "spec_behaviours_replayed_through_the_gate": (c.get("replay") or {}).get("by_verdict"),
+        "replayed_runs_validated_as_traces": {k: ((c.get("replay") or {}).get("validated") or {}).get(k) for k in ("traces", "accepted")},
         "ownership_traces_validated": (c.get("ownership") or {}).get("traces"),
     }
     if extra:
@@ -66,6 +67,11 @@ def _model_issues(c, v, invs):
             v.harness_errors.append(r["why"])
         else:
             v.notes.append("conformance-lost at event %s of trace %s (%s): %s" % (r["at"], r["id"], r["why"], json.dumps(r["event"])[:300]))
+    for r in ((c.get("replay") or {}).get("validated") or {}).get("rejected", []):
+        if r.get("harness"):
+            v.harness_errors.append(r["why"])
+        elif (r.get("event") or {}).get("e") != "quiesce":
+            v.notes.append("a gate-replayed run is not a behaviour of the specification it was generated from: trace %s at event %s (%s)" % (r["id"], r["at"], r["why"]))
     for st in (val.get("selftest") or {}, valnp.get("selftest") or {}):
         if st.get("ran") and not st.get("ok"):
             v.harness_errors.append("binding self-test failed: " + json.dumps(st))
@@ -131,7 +137,7 @@ def c02():
             v.violation("%s (%s): at quiescence %d process(es) stuck: %s" % (r["prog"], r["mode"], len(bad), json.dumps(bad)[:300]),
                         {"program": text[r["prog"]], "run": r["id"], "stuck": bad}, sig)
     for r in (c.get("replay") or {}).get("records", []):
-        if r["verdict"] not in ("agree", "diverged") or r["crash"] or r.get("hang") or r.get("late") or r["mode"] == "np" or r.get("blocked") is None:
+        if r["verdict"] not in ("agree", "diverged") or r["crash"] or r.get("hang") or r.get("late") or r.get("premature") or r["mode"] == "np" or r.get("blocked") is None:
             continue
         judged += 1
         bad = _blocked_bad(r)
@@ -171,7 +177,7 @@ def c03():
     # schedules chosen by TLC in the specifications and forced on the real interpreter by the gate: the outcome must be the one the other runs gave
     replayed = 0
     for r in (c.get("replay") or {}).get("records", []):
-        if r["verdict"] not in ("agree", "outcome", "diverged") or r["crash"] or r["prints"] is None or r.get("hang") or r.get("late"):
+        if r["verdict"] not in ("agree", "outcome", "diverged") or r["crash"] or r["prints"] is None or r.get("hang") or r.get("late") or r.get("premature"):
             continue     # (a run that left the plan finished on its own: what it printed is an observation of the real code all the same)
         if r["mode"] == "np" and not info[r["prog"]]["cfree"]:
             continue
